@@ -30,6 +30,10 @@ type c12Case struct {
 	// of the actions (a, b = send the first / second token in; i = answer the oldest pending inner task)
 	Overlap bool     `json:"overlap,omitempty"`
 	Hist    []string `json:"hist,omitempty"`
+	// Events: a catch event inside a sub-process 1..3 levels deep (the C11 scenario `insub…`): the inner
+	// token waits for an event handed to the instance; Hist is the history of deliveries and answers
+	Events string `json:"events,omitempty"` // shape
+	Kind   string `json:"kind,omitempty"`   // signal | message | messageop
 }
 
 func c12Cases(tier string, seed uint64) []fw.Case {
@@ -53,6 +57,31 @@ func c12Cases(tier string, seed uint64) []fw.Case {
 	for _, h := range [][]string{{"a", "b", "i", "i"}, {"a", "i", "b", "i"}, {"b", "a", "i", "i"}, {"a", "b"}, {"a", "b", "i"}} {
 		c := c12Case{Name: fmt.Sprintf("overlap/%v", h), Overlap: true, Hist: h}
 		cs = append(cs, fw.MkCase("overlap", &c))
+	}
+	// content that waits for events: a catch event inside a sub-process one, two and three levels deep; all
+	// histories up to length 3 / 4 over {matching event, other event, answer t0, answer t1}, then drained
+	evLen := 3
+	if tier == "thorough" {
+		evLen = 4
+	}
+	for si, shape := range []string{"insub", "insub2", "insub3"} {
+		alpha := []string{"e:r1", "e:zz", "a:t0", "a:t1"}
+		var rec func(p []string)
+		hi := 0
+		rec = func(p []string) {
+			if len(p) > 0 {
+				hi++
+				c := c12Case{Name: fmt.Sprintf("events/%s/%v", shape, p), Events: shape, Kind: []string{"signal", "message", "messageop"}[(hi+si)%3], Hist: append([]string(nil), p...)}
+				cs = append(cs, fw.MkCase("inner-events", &c))
+			}
+			if len(p) == evLen {
+				return
+			}
+			for _, a := range alpha {
+				rec(append(p, a))
+			}
+		}
+		rec(nil)
 	}
 	for _, p := range progs {
 		nblocks := p.AST.Count()
@@ -330,7 +359,12 @@ func init() {
 				v.Inconclusive("descriptor", "%v", err)
 				return v
 			}
-			if cc.Overlap {
+			if cc.Events != "" {
+				// the C11 runner and reference: the inner listener continues once per matching event, the
+				// parent's token continues exactly once after the inner token is consumed, the instance completes
+				c11Run(&c11Case{Shape: cc.Events, Kind: cc.Kind, Hist: cc.Hist}, env, v)
+				reclass(v, "inner-events/"+cc.Events)
+			} else if cc.Overlap {
 				c12Overlap(&cc, env, v)
 			} else {
 				c12Run(&cc, env, v)
@@ -338,7 +372,7 @@ func init() {
 			v.Nontrivial = true
 			return v
 		},
-		Rule:        "every C01 nesting-pair program and PRNG programs (without inclusive gateways) with a PRNG-chosen block wrapped in 1..3 nested sub-processes (covers sub-process in parallel branches and in loops) x data assignments x answer orders: the wrapped program is run stepwise against the reference token game (sub-process transparent) and differentially against the unwrapped program with the same answer order (pending requests after every step must be identical); storm runs of the wrapped program; every case non-trivial (contains a sub-process whose exit the parent token needs); distinct = descriptor hash",
+		Rule:        "every C01 nesting-pair program and PRNG programs (without inclusive gateways) with a PRNG-chosen block wrapped in 1..3 nested sub-processes (covers sub-process in parallel branches and in loops) x data assignments x answer orders: the wrapped program is run stepwise against the reference token game (sub-process transparent) and differentially against the unwrapped program with the same answer order (pending requests after every step must be identical); storm runs of the wrapped program; a catch event inside a sub-process one, two and three levels deep under every history up to length 3 / 4 of matching events, other events and answers (reference: the listener continues once per matching event delivered while it listens, the parent continues once, the instance completes); every case non-trivial (contains a sub-process whose exit the parent token needs); distinct = descriptor hash",
 		Assumptions: []string{"a sub-process node has one activation at a time (entered again only after the previous activation completed)"},
 	})
 }
